@@ -1793,6 +1793,13 @@ impl Database {
                         }
                     }
                 }
+
+                // the inserts may have split the index root
+                let new_index_root = index_btree.root_page();
+                if new_index_root != index_root_page {
+                    let page0 = index_storage.page_mut(0)?;
+                    IndexFileHeader::from_bytes_mut(page0)?.set_root_page(new_index_root);
+                }
             }
         }
 
@@ -1862,6 +1869,13 @@ impl Database {
                         }
                         let _ = index_btree.insert(&key_buf, row_key);
                     }
+                }
+
+                // the inserts may have split the index root
+                let new_index_root = index_btree.root_page();
+                if new_index_root != index_root_page {
+                    let page0 = index_storage.page_mut(0)?;
+                    IndexFileHeader::from_bytes_mut(page0)?.set_root_page(new_index_root);
                 }
             }
         }
